@@ -34,6 +34,8 @@ def declare(c):
     c.rule('C08.R8', 'frame conditions of the AxisPosition mutators: each changes only its own fields (homing: position and G92 '
                      'offset; G90/G91: the mode; G20/G21: the unit factor; G92: the offset; M206: home offset and position; a '
                      'move: the position) - units and positioning mode survive homing, offsets survive a change of units', floor=6)
+    c.rule('C08.R9', 'retraction bookkeeping is unit-proof: the recorded length is native (mm) and a generated G92 E / G1 E pair '
+                     'renders native positions in the file units in force when it is generated', floor=2)
     c.rule('C08.R5', 'the arc handlers hand processLinearMoves coordinates that are valid in the current positioning mode', floor=2)
 
 
@@ -239,6 +241,8 @@ def sibling_paths(col, gcode, paths, I):
             continue
         col.instance('C08.R3', (gcode, f.describe()))
         if gcode in ('G0', 'G1'):
+            from .rules_c04 import recorded_amount
+            recorded_amount(col, gcode, [p], I, 'C08.R9')
             from .pathfacts import exact_tracking
             col.instance('C08.R7', (gcode, f.describe(), tuple(f.decisions()[-5:])))
             for (fn, construct, msg) in exact_tracking(f, gcode):
@@ -349,6 +353,8 @@ def run(ctx, tier):
     I = make_interp(ctx.model, modular=False)
     laws(ctx, I)
     frame_rule(ctx, make_interp(ctx.model, modular=False))
+    from .rules_c04 import addcommands_rule
+    addcommands_rule(ctx, 'C08.R9', 'C08.R9')
     I2 = make_interp(ctx.model)
     native_args_rule(ctx, I2)
     run_path_rules(ctx, __name__, 'sibling_paths', ['G20', 'G21', 'G90', 'G91', 'G0', 'G1', 'G2', 'G3'], unroll=1)
